@@ -31,7 +31,17 @@ fn wrap(r: &mut Rng, body: &str) -> String {
 }
 
 fn pattern(r: &mut Rng) -> String {
-    match r.below(12) {
+    match r.below(18) {
+        12 => (*r.pick(&["local t1 = { 1, a = 2 }\nprint(t1)", "print({ a = 1, 2, 3 })", "f{ 1, [2] = 3 }", "local t2 = { 1, 2 }", "local t3 = { a = 1, [\"b\"] = 2 }", "print({})"])).to_string(),
+        13 => (*r.pick(&["local d1 = { a = 1, a = 2 }", "local d2 = { [\"k\"] = 1, k = 2 }", "local d3 = { 1, [1] = 2 }", "local d4 = { [1] = 1, [1.0] = 2 }",
+                         "local d5 = { a = 1, b = 2, [\"a b\"] = 3 }", "local d6 = { 1, 2, [3] = 3, 4 }", "local d7 = { [\"1\"] = 1, 2 }", "f{ x = 1, x = 2, x = 3 }",
+                         "local d8 = { [ [[k]] ] = 1, k = 2 }", "local d9 = { [x] = 1, [x] = 2 }"])).to_string(),
+        14 => (*r.pick(&["if (x) then print(1) end", "while (x) do print(1) end", "repeat print(1) until (x)", "if x then print(1) elseif (y) then print(2) end",
+                         "if (x) or (y) then print(1) end", "if (x)(y) then print(1) end", "while ((x)) do print(1) end"])).to_string(),
+        15 => format!("print({} {} {})", r.pick(&["x", "{}", "{ 1 }", "(x)", "({})"]), r.pick(&["==", "~=", "<", "<=", ">", ">=", "+", ".."]), r.pick(&["{}", "y", "{ a = 1 }", "({})", "#t"])),
+        16 => (*r.pick(&["print(type(x == \"number\"))", "print(type(x) == \"number\")", "if type(x == 'string') then print(1) end", "print(type(x ~= \"number\"))",
+                         "print(type(x == y))", "print(typeof(x == \"number\"))", "print(type(x == \"a\", 2))", "print(type((x == \"a\")))", "print(t.type(x == \"a\"))", "print(type \"a\")"])).to_string(),
+        17 => (*r.pick(&["local m1 = { f(), a = 1 }", "local m2 = { a = 1; 2 }", "local m3 = { [1] = 1, 2 }"])).to_string(),
         0 | 1 => format!("print({} / {})", r.pick(&OPERANDS), r.pick(&ZEROS)),
         2 => format!("print({} / {})", r.pick(&ZEROS), r.pick(&ZEROS)),
         3 => format!("local nanq = x {} {} / {}\nprint(nanq)", r.pick(&["==", "~=", "<"]), r.pick(&ZEROS), r.pick(&ZEROS)),
@@ -146,14 +156,19 @@ pub fn generate(seed: u64, n: usize, _thorough: bool) -> Cases {
                 let g = |k: &str| counts.get(k).copied().unwrap_or(0);
                 cases.push(
                     format!(
-                        "CChunk {} {}%nat {}%nat {}%nat {}%nat {}%nat {}%nat",
+                        "CChunk {} {}%nat {}%nat {}%nat {}%nat {}%nat {}%nat {}%nat {}%nat {}%nat {}%nat {}%nat",
                         term,
                         g("divide_by_zero"),
                         g("compare_nan"),
                         g("suspicious_reverse_loop"),
                         g("empty_if"),
                         g("empty_loop"),
-                        g("unbalanced_assignments")
+                        g("unbalanced_assignments"),
+                        g("mixed_table"),
+                        g("duplicate_keys"),
+                        g("parenthese_conditions"),
+                        g("constant_table_comparison"),
+                        g("type_check_inside_call")
                     ),
                     json!({"kind": "modelled-lints", "source": src, "counts": counts, "nontrivial": true}),
                 );
